@@ -78,11 +78,30 @@ def cid_specs(draw, kinds=KINDS, max_fields=5, types=gen_fields.TYPES, max_heade
             op = draw(st.sampled_from(_OPS))
             n = draw(st.integers(0, 4))
             blank = draw(st.sampled_from([" ", "", "  "]))
+            threshold = spell_count(n, draw(st.sampled_from([0, 0, 0, 1, 2, 3, 4, 5])))
             check_specs.append({"desc": "count %d of %s" % (number, name), "type": "DistinctCount",
-                                "rule": "%s%s%s%s%d" % (name, blank, op, blank, n), "field": name, "op": op, "n": n})
+                                "rule": "%s%s%s%s%s" % (name, blank, op, blank, threshold), "field": name, "op": op,
+                                "n": n})
         if draw(st.booleans()):
             check_specs.reverse()
     return {"fmt": fmt, "fields": fields, "checks": check_specs}
+
+
+def spell_count(n, style):
+    """The threshold n (>= 0) written as one of the 'mathematical expressions' the documentation allows; the first
+    integer of the text differs from n wherever that is possible."""
+    style %= 6
+    if style == 1:
+        return "%d + %d" % (n // 2, n - n // 2)
+    if style == 2:
+        return "%d * %d" % ((2, n // 2) if n % 2 == 0 and n else (1, n))
+    if style == 3:
+        return "(%d)" % n
+    if style == 4:
+        return "%d - %d" % (n + 2, 2)
+    if style == 5:
+        return "2 * %d + %d" % (n // 2, n % 2)
+    return "%d" % n
 
 
 def check_rows(spec):
@@ -160,8 +179,17 @@ def stored_rows(spec, rows):
     return [list(row) for row in rows]
 
 
+def _opened(path, via):
+    """A text stream the caller has opened: from a path (its ``name`` is that path) or from a file descriptor, as
+    pipes, sockets and temporary files are (its ``name`` is a number, which cannot name the input)."""
+    if via == "file-stream":
+        return open(path, "r", encoding="utf-8", newline="")
+    return os.fdopen(os.open(path, os.O_RDONLY), "r", encoding="utf-8", newline="")
+
+
 def write_source(spec, rows, tmpdir, via="stream", name="data"):
-    """Returns (source, base name for locations); source is a text stream or a path."""
+    """Returns (source, base name for locations); source is a text stream or a path.  ``via``: 'stream' (StringIO),
+    'path', and for the text formats 'file-stream' / 'fd-stream' (an open file the caller has to close)."""
     import io
 
     fmt = spec["fmt"]
@@ -173,6 +201,8 @@ def write_source(spec, rows, tmpdir, via="stream", name="data"):
         path = os.path.join(tmpdir, name + ".csv")
         with open(path, "w", encoding="utf-8", newline="") as f:
             f.write(text)
+        if via in ("file-stream", "fd-stream"):
+            return _opened(path, via), (name + ".csv" if via == "file-stream" else "<io>")
         return path, name + ".csv"
     if kind == "fixed":
         text = fixed_text(rows, fmt)
@@ -181,6 +211,8 @@ def write_source(spec, rows, tmpdir, via="stream", name="data"):
         path = os.path.join(tmpdir, name + ".txt")
         with open(path, "w", encoding="utf-8", newline="") as f:
             f.write(text)
+        if via in ("file-stream", "fd-stream"):
+            return _opened(path, via), (name + ".txt" if via == "file-stream" else "<io>")
         return path, name + ".txt"
     sheet = fmt.get("sheet") or 1
     if kind == "ods":
